@@ -261,6 +261,19 @@ def reflect(repo: str) -> dict:
     from exabgp.bgp.message.update.eor import EOR
 
     out['EOR_PREFIX'] = list(EOR.EOR_NLRI.PREFIX)
+    # the subcode Capabilities.unpack answers an optional parameter of unknown type with (ast: the raise that says so)
+    ctree = ast.parse(open(os.path.join(repo, 'src/exabgp/bgp/message/open/capability/capabilities.py')).read())
+    subs = []
+    for n in ast.walk(ctree):
+        if isinstance(n, ast.Raise) and isinstance(n.exc, ast.Call) and getattr(n.exc.func, 'id', '') == 'Notify' and len(n.exc.args) >= 3:
+            if 'OPEN parameter' in ast.unparse(n.exc.args[2]) and 'nknow' in ast.unparse(n.exc.args[2]):
+                a0, a1 = n.exc.args[0], n.exc.args[1]
+                if not (isinstance(a0, ast.Constant) and a0.value == 2 and isinstance(a1, ast.Constant) and isinstance(a1.value, int)):
+                    raise Untranslatable('the NOTIFICATION for an unknown OPEN parameter is not Notify(2, <constant>, ...)')
+                subs.append(a1.value)
+    if len(subs) != 1:
+        raise Untranslatable(f'expected one raise for an unknown OPEN parameter in Capabilities.unpack, found {len(subs)}')
+    out['UNKNOWN_PARAM_SUB'] = subs[0]
     # AIGP (RFC 7311): the length of the AIGP TLV and the smallest TLV the walk of from_packet accepts
     from exabgp.bgp.message.update.attribute.aigp import AIGPBase
 
@@ -309,7 +322,7 @@ def generate(repo: str) -> str:
     L.append('(* Operational.registered_operational: code -> category (1 advisory, 2 query, 3 counter, 0 other) *)')
     L.append('Definition operational_table : list (Z * Z) := [' + '; '.join(f'({c}, {k})' for c, k in rf['ops']) + '].')
     for k in ('OPEN_MIN', 'OPEN_FIXED', 'BGP_4', 'EXTENDED_LENGTH', 'P_AUTH', 'P_CAPS', 'MIN_PARAM', 'MIN_EXT_PARAM',
-              'NOTIF_HEADER', 'SHUT_MAX', 'UPD_HDR', 'UPD_WOFF', 'EOR4', 'EORP', 'AIGP_TLV_LENGTH', 'AIGP_TLV_HDR', 'AIGP_TLV_TYPE'):
+              'NOTIF_HEADER', 'SHUT_MAX', 'UPD_HDR', 'UPD_WOFF', 'EOR4', 'EORP', 'AIGP_TLV_LENGTH', 'AIGP_TLV_HDR', 'AIGP_TLV_TYPE', 'UNKNOWN_PARAM_SUB'):
         L.append(f'Definition {k} : Z := {rf[k]}.')
     L.append('Definition EOR_PFX : list Z := [' + '; '.join(str(b) for b in rf['EOR_PREFIX']) + '].')
     return '\n'.join(L) + '\n'
